@@ -19,6 +19,13 @@ CLAIMED = {
     'C02': ('Same runs: final height within [min,max]; count <= max_boreholes; Search failed only when the user did not ask to continue and no '
             'allowed candidate fits; continued runs return largest@max / smallest@min; any non-ValueError exception escaping is a violation '
             '(found and fixed: RowWise TypeError).', SEARCH_NOTE, '3/C02', None),
+    'C03': ('For each concrete land rectangle (4 catalogue + 1 seeded lot quick; 17 + 12 thorough, both orientations, integer and non-integer '
+            'side/spacing ratios) the solver partitions the whole range of spacing bounds into regions of constant row/column counts and shows '
+            'on every region that all fields of the real generators stay on the land, have no coincident boreholes and keep b_min; near-square '
+            'grids equal the n x n / n x (n+1) lattice at spacing b and the list is complete; lists are count-ordered; floor/ceil kernel '
+            'proved in the float relative-error model for counts 3..120 (400).',
+            'land sides concrete (symbolic sides: z3 unknown, probed); spacing window assumed to admit an integer row count and three rows at '
+            'the maximum spacing; floats as reals except the kernel lemma', '3/C03', None),
     'C05': ('Same runs: final height is a brentq root unless the sign does not change; count*H <= count_j*Hmax for every evaluated feasible j; '
             'predecessor of the selection evaluated and failing; first feasible under monotone excess (all threshold positions up to 32/64 '
             'fields).', SEARCH_NOTE, '3/C05', None),
